@@ -402,7 +402,21 @@ def edge_outcome(facts, body, bb, label, cond=None):
     return label
 
 
-def required_outcomes(facts, body, target_bb, include_debug=False):
+def is_try_switch(body, cond):
+    """The switch tests the result of a `?` (Try::branch): error plumbing, not a data-dependent guard."""
+    if cond.get("kind") != "variant":
+        return False
+    l = cond["place"]["l"]
+    if cond["place"]["p"]:
+        return False
+    for bb, t in body.calls():
+        d = t.get("dest")
+        if d and d["l"] == l and not d["p"] and callee_decl(t).endswith("Try::branch"):
+            return True
+    return False
+
+
+def required_outcomes(facts, body, target_bb, include_debug=False, skip_try=True):
     """For every switch block that constrains reaching `target_bb`: (switch_bb, cond, set(outcomes))
     where outcomes are the only outcomes of that switch through which target_bb is reachable."""
     res = []
@@ -422,6 +436,8 @@ def required_outcomes(facts, body, target_bb, include_debug=False):
         if len(allowed) < len(edges):
             cond = switch_cond(body, b.idx)
             if not include_debug and (is_debug_only(b.term) or cond.get("debug_only")):
+                continue
+            if skip_try and is_try_switch(body, cond):
                 continue
             outs = set()
             for lab in allowed:
